@@ -54,9 +54,9 @@ var c04AllPairs = func() []c04Pair {
 func c04Counts(tier string) (enum1, enum2, enum3, random int) {
 	n := len(c04AllPairs)
 	if tier == "thorough" {
-		return n, n * n, n * n * n, 20000
+		return n, n * n, n * n * n, 60000
 	}
-	return n, n * n, 0, 1500
+	return n, n * n, 0, 8000
 }
 
 func init() {
